@@ -748,6 +748,30 @@ Proof.
       * right. exists q, ku. repeat split; assumption.
 Qed.
 
+Lemma pool_auth_secret : forall p ku, pool_auth_bad p = false -> In ku (p_users p) -> has_secret p (snd ku) = true.
+Proof.
+  intros p ku H Hin. unfold pool_auth_bad in H. apply orb_false_iff in H. destruct H as [_ H].
+  assert (X : ((negb (p_auth_query p) || negb (p_auth_password p) || negb (p_auth_user p)) && negb (u_password (snd ku))) = false).
+  { destruct (_ && negb (u_password (snd ku))) eqn:E; [|reflexivity].
+    assert (Y : existsb (fun ku0 => (negb (p_auth_query p) || negb (p_auth_password p) || negb (p_auth_user p)) && negb (u_password (snd ku0))) (p_users p) = true)
+      by (apply existsb_exists; exists ku; split; assumption).
+    congruence. }
+  unfold has_secret, is_auth_query_configured.
+  destruct (p_auth_query p); destruct (p_auth_password p); destruct (p_auth_user p); destruct (u_password (snd ku)); destruct (u_server_password (snd ku)); cbn in *; try reflexivity; discriminate.
+Qed.
+
+Lemma config_validate_secret : forall c p ku, config_validate c = true -> In p (c_pools c) -> In ku (p_users p) ->
+  has_secret p (snd ku) = true.
+Proof.
+  intros c p ku H Hp Hku. unfold config_validate in H.
+  destruct (g_auth_query c && _); [discriminate|].
+  destruct (_ || (g_server_lifetime c =? 0)); [discriminate|].
+  destruct (existsb pool_auth_bad (c_pools c)) eqn:E; [discriminate|].
+  apply pool_auth_secret; [|exact Hku].
+  destruct (pool_auth_bad p) eqn:B; [|reflexivity].
+  assert (Y : existsb pool_auth_bad (c_pools c) = true) by (apply existsb_exists; exists p; split; assumption). congruence.
+Qed.
+
 Lemma config_validate_facts : forall c, config_validate c = true ->
   general_ok c /\ forall p, In p (c_pools c) -> pool_validate p = true.
 Proof.
@@ -783,7 +807,9 @@ Proof.
   exists pools. split; [exact E|]. split.
   - intros bp Hbp. destruct (I1 bp Hbp) as [[]|[p' [ku [Hp [Hku [[Hd Hu] Hs]]]]]].
     cbn [fill_up c_pools] in Hp. apply in_map_iff in Hp. destruct Hp as [p [Ep Hp]]. subst p'.
-    exists p, ku. split; [exact Hp|]. split; [exact Hku|]. split; [exact Hd|]. split; [exact Hu|]. destruct Hs as [Hs1 Hs2]. split; [exact Hs1|exact Hs2].
+    exists p, ku. split; [exact Hp|]. split; [exact Hku|]. split; [exact Hd|]. split; [exact Hu|]. destruct Hs as [Hs1 Hs2]. split; [exact Hs1|]. split; [exact Hs2|].
+    destruct Hs2 as [_ [_ [UC _]]]. rewrite UC.
+    apply (config_validate_secret (fill_up c) (fill_pool c p) ku A); [cbn [fill_up c_pools]; apply in_map; exact Hp|exact Hku].
   - intros p ku Hp Hku.
     destruct (I2 (p_name p) (u_name (snd ku))) as [x [Hx [Hd Hu]]].
     { right. exists (fill_pool c p), ku. split; [cbn [fill_up c_pools]; apply in_map; exact Hp|].
@@ -1133,6 +1159,25 @@ Lemma built_settings : forall c pools, accept c = true -> small c -> typed c -> 
                settings_ok c p (snd ku) bp.
 Proof.
   intros c pools A S T B bp Hbp. destruct (accepted_servable c A S T) as [pools' [B' [G _]]].
-  rewrite B in B'. inversion B'; subst pools'. destruct (G bp Hbp) as [p [ku [H1 [H2 [H3 [H4 [_ H6]]]]]]].
+  rewrite B in B'. inversion B'; subst pools'. destruct (G bp Hbp) as [p [ku [H1 [H2 [H3 [H4 [_ [H6 _]]]]]]]].
   exists p, ku. split; [exact H1|]. split; [exact H2|]. split; [exact H3|]. split; [exact H4|exact H6].
+Qed.
+
+(** * Credentials *)
+Lemma built_secret : forall c pools, accept c = true -> small c -> typed c -> build c = Built pools ->
+  forall bp, In bp pools -> exists p, In p (c_pools c) /\ bp_db bp = p_name p /\ has_secret (fill_pool c p) (bp_user_cfg bp) = true.
+Proof.
+  intros c pools A S T B bp Hbp. destruct (accepted_servable c A S T) as [pools' [B' [G _]]].
+  rewrite B in B'. inversion B'; subst pools'. destruct (G bp Hbp) as [p [ku [H1 [_ [H3 [_ [_ [_ H7]]]]]]]].
+  exists p. split; [exact H1|]. split; [exact H3|exact H7].
+Qed.
+
+(* auth_type is about the client side only: a trust user without password (and without a fully
+   configured auth_query) is rejected like any other *)
+Lemma reject_trust_without_secret : forall c p ku, In p (c_pools c) -> In ku (p_users p) ->
+  u_auth_type (snd ku) = AuthTrust -> u_password (snd ku) = false ->
+  is_auth_query_configured (fill_pool c p) = false -> accept c = false.
+Proof.
+  intros c p ku Hp Hku _ PW AQ. apply (reject_missing_password c p ku Hp Hku PW).
+  unfold is_auth_query_configured in AQ. cbn [fill_pool p_auth_query p_auth_user p_auth_password] in AQ. exact AQ.
 Qed.
